@@ -34,7 +34,7 @@ normalised by `measure` to unit L2 norm), `r` the number of connected components
 noncomputable def mstSpent (rho : ℝ) (ws1 ws2 : List ℝ) (r : ℕ) : ℝ :=
   (ws1.map (fun w => gaussCost 1 (mst_measure_scale (mst_measure1_sigma (mst_sigma rho)) w))).sum
   + ((r : ℝ) - 1) * selectCost (realisedEps (mst_em_scores (mst_em_coef false)
-        (mst_select_eps (mst_select_rho rho) r) mst_select_sensitivity 1) 1)
+        (mst_select_eps (mst_select_rho rho) r) mst_select_sensitivity 1 0) 1)
   + (ws2.map (fun w => gaussCost 1 (mst_measure_scale (mst_measure2_sigma (mst_sigma rho)) w))).sum
 
 /-- **MST spends exactly ρ** (three thirds) for every number of attributes and every forest of
@@ -57,7 +57,7 @@ theorem mst_budget (rho : ℝ) (ws1 ws2 : List ℝ) (r : ℕ) (hrho : 0 < rho)
     simp only [gaussCost, mst_measure_scale, mst_measure2_sigma] <;> pgm_arith
   have hr1 := natCast_sub_one_pos r hr
   have heps := mst_select_eps_sq rho r hrho hr1
-  have hsel : ∀ e, selectCost (realisedEps (mst_em_scores (mst_em_coef false) e mst_select_sensitivity 1) 1)
+  have hsel : ∀ e, selectCost (realisedEps (mst_em_scores (mst_em_coef false) e mst_select_sensitivity 1 0) 1)
       = e ^ 2 / 8 := by
     intro e
     simp only [selectCost, realisedEps, mst_em_scores, mst_em_coef, mst_select_sensitivity,
